@@ -2,7 +2,7 @@ use super::*;
 use crate::cache::AsyncLruCache;
 use crate::cache::AsyncLruCacheEntry;
 use crate::error::Qcow2Result;
-use crate::helpers::qcow2_type_of;
+use crate::helpers::{qcow2_type_of, IntAlignment, Qcow2IoBuf};
 use crate::meta::{L1Entry, L1Table, L2Table, SplitGuestOffset, Table, TableEntry};
 use futures_locks::{RwLock as AsyncRwLock, RwLockWriteGuard as LockWriteGuard};
 use std::collections::hash_map::Entry;
@@ -51,7 +51,20 @@ impl<T: Qcow2IoOps> Qcow2Dev<T> {
         F: FnOnce(&mut Qcow2Header),
     {
         let buf = h.serialize_to_buf()?;
-        if let Err(err) = self.call_write(0, &buf).await {
+
+        // backend requests have to be block aligned (direct io), so update
+        // the header in one aligned copy of the block(s) holding it
+        let bs = 1usize << self.info.block_size_shift;
+        let mut blk = Qcow2IoBuf::<u8>::new(buf.len().align_up(bs).unwrap());
+        blk.zero_buf();
+        let res = match self.call_read(0, &mut blk).await {
+            Ok(_) => {
+                blk[..buf.len()].copy_from_slice(&buf);
+                self.call_write(0, &blk).await
+            }
+            Err(err) => Err(err),
+        };
+        if let Err(err) = res {
             rollback(h);
             return Err(err);
         }
